@@ -1561,7 +1561,7 @@ def part_cwd(chk, T, runner):
         if not quick or fam[i] == "pages1" or i % 3 == chk.seed % 3:
             sel.append((i, i % 2, "all" if i % 4 else "ranges-dir"))
     for n, i in enumerate(range(len(sysjobs), len(jobs))):
-        if quick and n >= 40:
+        if n >= (40 if quick else 4000):
             break
         sel.append((i, n % 2, FLAVOUR_ORDER[n % len(FLAVOUR_ORDER)]))
     seen = {(i, st, fl) for i, st, fl in sel}
